@@ -42,6 +42,15 @@ def handleCia (cmd : String) (args : List SExp) : String :=
         | (g, none) => (g, acc.2 ++ [match g.normal 0x40 with | some k => toHexW k | none => "none"])
       " ".intercalate (ts.foldl step (Engine.create (d == 1) (some blob), [])).2
     | _, _, _ => "bad-args"
+  -- CDNReader's title-key setup: (cdn-key DEV BLOB TITLEID DEC ENC IDX CETK|none) -> title key slot or error
+  | "cdn-key", [dv, bl, tid, dec, enc, idx, cetk] =>
+    match dv.nat?, bl.bytes?, tid.bytes?, dec.bytes?, enc.bytes?, idx.nat? with
+    | some d, some blob, some t, some dk, some ek, some i =>
+      let ck : Option Bytes := if cetk.sym? == some "none" then none else cetk.bytes?
+      match Cdn.setupKey blockD (Engine.create (d == 1) (some blob)) t dk ek i ck with
+      | (_, some e) => "e:" ++ e.name
+      | (g, none) => match g.normal 0x40 with | some k => toHexW k | none => "none"
+    | _, _, _, _, _, _ => "bad-args"
   | "cia-ops", [f, st, dv, bl, sec, .list ops] =>
     match f.bytes?, st.nat?, dv.nat?, bl.bytes?, sec.int?, ops.mapM Op.ofSExp with
     | some file, some start, some d, some blob, some sc, some ops =>
